@@ -391,5 +391,7 @@ func (w *w1) finish() {
 		w.judgeOffsets()
 	case "C44":
 		w.judgeReplicaOps()
+	case "C22":
+		w.judgeTopicKeys()
 	}
 }
